@@ -499,7 +499,7 @@ fn close_case(keep_conn: bool, pending_out: usize, raw_extra: usize) {
     }
 }
 
-// @harness name=c07_close_keep_writeable props=C07,C11 tier=thorough timeout=7000 rmbody=ioerr,nogrow,nonv,nowaiters,nodropreq,nopollinput mem=20 unwindset=verif_kani::close_case$:34;WriteAll<.*>.as.futures_util::Future>::poll$:4;drop_glue::<.slab::Entry<.*>.>$:2
+// @harness name=c07_close_keep_writeable props=C07,C11 tier=manual timeout=7000 rmbody=ioerr,nogrow,nonv,nowaiters,nodropreq,nopollinput mem=20 unwindset=verif_kani::close_case$:34;WriteAll<.*>.as.futures_util::Future>::poll$:4;drop_glue::<.slab::Entry<.*>.>$:2
 // @bound Request::close at a record boundary with all input consumed (writeable), KeepConn set, 2 bytes of pending management replies, 3 bytes of look-ahead for the next request; every ExitStatus (all u32 app statuses) and request id; the transport checks every write against the expected byte sequence and accepts any split (<= 2 short writes) and <= 1 Pending
 // @functions Request::close, Request::writeable, Request::record_boundary, make_request_epilogue, stream::Parser::into_request_parser
 #[kani::proof]
@@ -509,7 +509,7 @@ fn close_case(keep_conn: bool, pending_out: usize, raw_extra: usize) {
 #[kani::stub(alloc::fmt::format, crate::verif_kani::fmt_format_stub)]
 fn c07_close_keep_writeable() { close_case(true, 2, 3); }
 
-// @harness name=c07_close_nokeep props=C07 tier=thorough timeout=7000 rmbody=ioerr,nogrow,nonv,nowaiters,nodropreq,nopollinput mem=20 unwindset=verif_kani::close_case$:34;WriteAll<.*>.as.futures_util::Future>::poll$:4;drop_glue::<.slab::Entry<.*>.>$:2
+// @harness name=c07_close_nokeep props=C07 tier=manual timeout=7000 rmbody=ioerr,nogrow,nonv,nowaiters,nodropreq,nopollinput mem=20 unwindset=verif_kani::close_case$:34;WriteAll<.*>.as.futures_util::Future>::poll$:4;drop_glue::<.slab::Entry<.*>.>$:2
 // @bound as above without KeepConn, no pending replies, no look-ahead
 // @functions Request::close, make_request_epilogue
 #[kani::proof]
@@ -562,6 +562,37 @@ impl AsyncWrite for CountW {
             if c < k { this.partial_budget -= 1; }
             k = c;
         }
+        this.len += k;
+        Poll::Ready(Ok(k))
+    }
+    fn poll_flush(self: Pin<&mut Self>, _cx: &mut Context<'_>) -> Poll<io::Result<()>> { Poll::Ready(Ok(())) }
+    fn poll_close(self: Pin<&mut Self>, _cx: &mut Context<'_>) -> Poll<io::Result<()>> { Poll::Ready(Ok(())) }
+}
+
+/// Ordering transport for close(): reply bytes produced by the parser contract are the markers 0xAB / 0xCD, the
+/// epilogue (request id 7, ExitStatus::Overloaded) consists of bytes <= 8 only.  Checks, without a byte log, that no
+/// reply byte is offered after an epilogue byte (C07: pending management replies come BEFORE the stream ends / EndRequest).
+pub(crate) struct OrderW { pub len: usize, pub calls: usize, pub pend_budget: usize, pub partial_budget: usize, pub epilogue_started: bool }
+impl AsyncWrite for OrderW {
+    fn poll_write(self: Pin<&mut Self>, _cx: &mut Context<'_>, buf: &[u8]) -> Poll<io::Result<usize>> {
+        let this = self.get_mut();
+        this.calls += 1;
+        let marker = |b: u8| b == 0xAB || b == 0xCD;
+        let i: usize = kani::any();
+        if i < buf.len() && marker(buf[i]) {
+            assert!(!this.epilogue_started, "C07: a pending management reply is written after the end-of-request records");
+            let j: usize = kani::any();
+            if j < i { assert!(marker(buf[j]), "C07: a pending management reply is written after the end-of-request records"); }
+        }
+        if this.pend_budget > 0 && kani::any() { this.pend_budget -= 1; return Poll::Pending; }
+        let mut k = buf.len();
+        if this.partial_budget > 0 && k > 1 {
+            let c: usize = kani::any();
+            kani::assume(1 <= c && c <= k);
+            if c < k { this.partial_budget -= 1; }
+            k = c;
+        }
+        if k > 0 && !marker(buf[k - 1]) { this.epilogue_started = true; }
         this.len += k;
         Poll::Ready(Ok(k))
     }
@@ -730,7 +761,7 @@ fn c08_glue_parse_request() {
 
 // ------------------------------------------------------------------------------------------------ C07 / C11 / C12 / C08: close() with unread input (draining to a record boundary)
 
-// @harness name=c07_close_drain props=C07,C11,C12,C08 tier=thorough timeout=7000 rmbody=ioerr,nogrow,nonv,nowaiters,nodropreq,nopollinput mem=24 unwindset=verif_kani::close_drain_case$:34;WriteAll<.*>.as.futures_util::Future>::poll$:4;drop_glue::<.slab::Entry<.*>.>$:2;Request::<'_,.*>::record_boundary::.closure.0.$:4;Request::<'_,.*>::poll_output$:4
+// @harness name=c07_close_drain props=C07,C11,C12,C08 tier=manual timeout=7000 rmbody=ioerr,nogrow,nonv,nowaiters,nodropreq,nopollinput mem=24 unwindset=verif_kani::close_drain_case$:34;WriteAll<.*>.as.futures_util::Future>::poll$:4;drop_glue::<.slab::Entry<.*>.>$:2;Request::<'_,.*>::record_boundary::.closure.0.$:4;Request::<'_,.*>::poll_output$:4
 // @bound Request::close in the middle of an unread record (payload_rem = 1, active stream None after close() selects it), KeepConn, parser contract (any consumption, replies, boundary reached or not, <= 1 error: AbortRequest or a fatal one); reader: 1 byte then EOF, <= 1 Pending; writer counting, <= 1 short write, <= 1 Pending; polled up to 4 times
 // @functions Request::close, Request::record_boundary, Request::poll_output, make_request_epilogue
 #[kani::proof]
@@ -748,12 +779,12 @@ fn close_drain_case() {
     // handler finished without reading its input: Stdin still active, writeable (Responder), one payload byte of a record outstanding
     let mut parser = sv::mk_code(&cfg, raw, (0, 0, 0, 0), 1, fcgi::Role::Responder, 7, Some(fcgi::RecordType::Stdin), 1, 0, Vec::with_capacity(32), 0);
     parser.request.flags = fcgi::RequestFlags::from(1);
-    let w = CountW::new(1, 1);
+    let w = OrderW { len: 0, calls: 0, pend_budget: 1, partial_budget: 1, epilogue_started: false };
     let req = Request { parser, input: CountR::new(1, 1), output: Arc::new(Mutex::new(w)), lock: None, writeable: true };
     let rp: *const CountR = &req.input;
     // observe the writer without holding a second Arc (close() requires all other handles to be gone)
-    let wp: *const Mutex<CountW> = Arc::as_ptr(&req.output);
-    let mut fut = std::mem::ManuallyDrop::new(req.close(ExitStatus::Complete(kani::any())));
+    let wp: *const Mutex<OrderW> = Arc::as_ptr(&req.output);
+    let mut fut = std::mem::ManuallyDrop::new(req.close(ExitStatus::Overloaded));
     let mut polls = 0;
     loop {
         polls += 1;
@@ -793,4 +824,66 @@ fn close_drain_case() {
             }
         }
     }
+}
+
+// ------------------------------------------------------------------------------------------------ C08 / C11 / C12: record_boundary (draining unread input) on its own
+
+// @harness name=c08_glue_record_boundary props=C08,C11,C12 tier=quick timeout=1800 rmbody=ioerr,nogrow,nowaiters,nodropreq mem=24 unwindset=Request::<'_,.*>::record_boundary::.closure.0.$:4;Request::<'_,.*>::poll_output$:4;drop_glue::<.slab::Entry<.*>.>$:2
+// @bound Request::record_boundary in the middle of an unread record (payload_rem = 1, active stream None) against the parser contract (any consumption, replies, boundary reached or not, <= 1 error: AbortRequest or a fatal one); reader: 1 byte then EOF, <= 1 Pending; writer counting, <= 1 short write, <= 1 Pending; polled up to 4 times
+// @functions Request::record_boundary, Request::poll_output
+#[kani::proof]
+#[kani::unwind(6)]
+#[kani::stub(std::hash::RandomState::new, fixed_random_state)]
+#[kani::stub(stream::Parser::parse, sv::parse_contract)]
+#[kani::stub(stream::Parser::compress, sv::compress_contract)]
+fn c08_glue_record_boundary() {
+    let cfg = sv::cfg1();
+    unsafe { sv::GS_ERR_BUDGET = 1; sv::GS_OUT_TOTAL = 0; }
+    let raw = [0u8; sv::B];
+    let parser = sv::mk_code(&cfg, raw, (0, 0, 0, 0), 1, fcgi::Role::Responder, 7, None, 1, 0, Vec::with_capacity(32), 0);
+    let mut req = Request { parser, input: CountR::new(1, 1), output: Arc::new(Mutex::new(CountW::new(1, 1))), lock: None, writeable: true };
+    let rp: *const CountR = &req.input;
+    let wp: *const Mutex<CountW> = Arc::as_ptr(&req.output);
+    let pp: *const stream::Parser<'_> = &req.parser;
+    let mut polls = 0;
+    {
+        let mut fut = std::mem::ManuallyDrop::new(req.record_boundary());
+        loop {
+            polls += 1;
+            assert!(polls <= 4, "record_boundary must make progress");
+            let pinned = unsafe { Pin::new_unchecked(&mut *fut) };
+            match poll_once(pinned) {
+                Poll::Pending => {
+                    let rr = unsafe { &*rp };
+                    if rr.last_pending {
+                        let g = unsafe { (*wp).try_lock() }.expect("output lock must be free while waiting for input");
+                        assert!(g.len == unsafe { sv::GS_OUT_TOTAL }, "C08:reply-owed-at-read-pending: record_boundary waits for the rest of a record while replies are unsent");
+                        assert!(unsafe { sv::GS_FED } == rr.pos, "C08: bytes read from the transport were not handed to the parser before waiting again");
+                        kani::cover!(unsafe { sv::GS_OUT_TOTAL } > 0, "draining: reply flushed before waiting");
+                        std::mem::forget(g);
+                    } else { kani::cover!(true, "suspended on the writer"); }
+                }
+                Poll::Ready(res) => {
+                    let (aborts, fatals) = unsafe { sv::GS_ERRS };
+                    let rr = unsafe { &*rp };
+                    match &res {
+                        Ok(()) => {
+                            assert!(unsafe { (*pp).is_record_boundary() }, "record_boundary returned Ok off a record boundary");
+                            assert!(fatals == 0, "C12: record_boundary succeeded although the parser reported a fatal error");
+                            kani::cover!(aborts == 1, "C11: an abort seen while draining is tolerated");
+                        }
+                        Err(e) => {
+                            assert!(fatals == 1 || rr.said_eof || rr.said_err, "C11: draining failed although the only irregularity was a client abort (or none)");
+                            if rr.said_eof && fatals == 0 { assert!(e.kind() == io::ErrorKind::UnexpectedEof, "C12: EOF while draining must surface as UnexpectedEof"); }
+                            if fatals == 1 && !rr.said_eof && !rr.said_err { assert!(e.kind() == io::ErrorKind::InvalidData, "C12: a fatal protocol error must surface as InvalidData"); }
+                            kani::cover!(rr.said_eof, "EOF while draining");
+                        }
+                    }
+                    std::mem::forget(res);
+                    break;
+                }
+            }
+        }
+    }
+    std::mem::forget(req);
 }
